@@ -12,6 +12,7 @@ ID = "C05"
 LEVEL = "exploration"
 TECHNIQUE = "Hypothesis-generated ragged plate sets compared with a loop-by-loop float64 reference estimator (differential) plus metamorphic re-groupings/permutations"
 RULE = (
+    "(scorer path: also candidate plates combined with an already selected plate, i.e. overlapping scored subsets, at three batch sizes) "
     "n=3..32 posterior samples (32 = largest full enumeration under the default budget of 5000) with all C(n,3) triples enumerated, 1..6 plates of 1..8 experiments (ragged; size-1 and single-plate cases "
     "forced), means in [-30,30] (occasionally 1e3; in a third of the plates a common level of 1e2, 1e4 or +-1e6 plus differences in [-3,3]), variances 10^U(-3,3), symmetric non-negative zero-diagonal distance matrices with exact "
     "zeros, distance_factor in {1,.5,2}; entry points: heteroscedastic, homoscedastic, vectorized (harness-built NaN padding) and "
@@ -281,6 +282,21 @@ def check_case(case):
             v_ = np.stack([np.asarray(t.predict_conditional_variance(pl), dtype=float) for t in thetas])
             r2 = reference_score(m_, v_, d2, 1.0)
             require(_close(float(v), r2), "scorer.second_distance_matrix", lambda: "plate %d: the scorer object (max_chunk=%d), used again with another distance matrix, gives %r; direct estimator with that matrix %r" % (int(k), mc, float(v), r2))
+    # candidate plates conditioned on an already selected plate (what score_chunk hands the scorer when a batch is under way): the
+    # scored subsets OVERLAP (each holds the batch plate's experiments); every one must still equal the direct estimator on its own rows
+    if len(plates) >= 2:
+        keys = sorted(plates)
+        batch_key = keys[case["perm_seed"] % len(keys)]
+        cond = {k: (plates[k] if k == batch_key else plates[k].combine(plates[batch_key])) for k in keys if k != batch_key or len(keys) == 2}
+        cref = {}
+        for k, sub in cond.items():
+            m_ = np.stack([np.asarray(t.predict_conditional_mean(sub), dtype=float) for t in thetas])
+            v_ = np.stack([np.asarray(t.predict_conditional_variance(sub), dtype=float) for t in thetas])
+            cref[k] = reference_score(m_, v_, d, 1.0)
+        for mc in sorted({case["max_chunk"], 50, 2}):
+            got = gd.GaussianDBALScorer(max_chunk=mc, max_triples=math.comb(n, 3) + 3).score(plates=dict(cond), distance_matrix=cdm, samples=holder, rng=np.random.default_rng(9), progress_bar=False)
+            for k, v in got.items():
+                require(_close(float(v), cref[int(k)]), "scorer.overlapping_subsets", lambda: "subset %d (a plate combined with the already selected plate %d, so the scored subsets overlap; max_chunk=%d): scorer %r, direct estimator on its own rows %r" % (int(k), batch_key, mc, float(v), cref[int(k)]))
     sizes = [int(p.size) for p in plates.values()]
     labels = ["scorer", "het" if case["het"] else "homo", "chunked" if case["max_chunk"] < len(plates) else "one-chunk"]
     return {"nontrivial": len(set(sizes)) > 1 or 1 in sizes, "labels": labels}
